@@ -20,4 +20,5 @@ s = open(p).read()
 s2 = re.sub(r"<!-- SEEDED-TABLE-BEGIN -->.*?<!-- SEEDED-TABLE-END -->", "<!-- SEEDED-TABLE-BEGIN -->\n" + table + "<!-- SEEDED-TABLE-END -->", s, flags=re.S)
 open(p, "w").write(s2)
 caught = sum(1 for r in rows if "**X**" in r)
-print("%d seeded changes, %d caught by their target check" % (len(rows), caught))
+na = sum(1 for d in glob.glob(os.path.join(V, "seeded", "*", "meta.json")) if json.load(open(d))["property"] not in ALL)
+print("%d seeded changes, %d caught by their target check, %d aimed at a property that is not claimed (not applicable)" % (len(rows), caught, na))
